@@ -337,7 +337,7 @@ def extra_programs(impl):
     def p4(dt, rng, T):
         x = T(np.array([1.0, -2.0, 3.0], dtype=dt), True)
         y = x * 2.0
-        return [y, y * 3.0, (y + x).sum()], [x]
+        return [x, y, y * 3.0, (y + x).sum(), x * 5.0], [x]      # a leaf used as root, then graphs that accumulate into it
 
     @prog("view ops whose result shares memory with the operand, then arithmetic")
     def p5(dt, rng, T):
